@@ -229,6 +229,9 @@ ADev(e) ==
               \/ qtx.mf > 0 /\ DrainOK(e, ackedN, qtx.mf)
               \/ qtx.ma > 0 /\ DrainOK(e, ackedN + qtx.ma, flushedN))
     [] e.ev \in {"CrashFailed", "QOpenFailed"} -> {<<"C06", e.ev>>}
+    \* the driver found the queue empty (everything ACKed), only a few small events buffered, and the
+    \* flush still fails for lack of space
+    [] e.ev = "StuckAfterDrain" -> {<<"C12", "FlushAfterDrain">>}
     [] OTHER -> {}
 
 Act(e) ==
@@ -250,7 +253,7 @@ Act(e) ==
     [] e.ev = "QClose" -> QClose(e)
     [] e.ev = "QAbandon" -> QClose(e)      \* the process died: the buffer is lost (no flush is owed)
     [] e.ev \in {"Next", "Flush"} -> ProducerEv(e)
-    [] e.ev \in {"Available", "Counters", "QReopen", "CrashDrain", "CrashFailed",
+    [] e.ev \in {"StuckAfterDrain", "Available", "Counters", "QReopen", "CrashDrain", "CrashFailed",
                  "QOpenFailed", "IO", "Note"} -> NoChange
     [] OTHER -> FALSE
 
